@@ -869,8 +869,11 @@ def run_scenes(ctx, impl, drv, nscene, nsrc, nray, dev, found, stats, max_report
                     wd = rd * math.sqrt(vv)
                     same = (db, gid) == (rdb, rgid)
                     if not same:
-                        must = big or (rgid >= 0 and wd <= m["cutoff"] * (1 - 1e-9))
-                        weaker_ok = (not must) and ((rd == -1.0 and dm == -1.0) or (rd >= 0 and (dm == -1.0 or dm >= rd)))
+                        # a geom that mju_multiRayPrepare eliminated by the cutoff test (flag set although the filter keeps it) may
+                        # legitimately be missing when it is hit beyond the cutoff; every other difference is a disagreement
+                        cut = 0 <= rgid < len(gel) and gel[rgid] == 1 and rr[1]["geoms"][rgid]["elim"] == 0
+                        must = (not cut) or wd <= m["cutoff"] * (1 - 1e-9)
+                        weaker_ok = (not must) and (dm == -1.0 or dm >= rd)
                         if not weaker_ok:
                             g = geoms[rgid] if 0 <= rgid < len(geoms) else None
                             farther = rgid >= 0 and (dm == -1.0 or dm > rd)
@@ -1037,7 +1040,7 @@ def run(ctx):
     ctx.lean_props(THEOREMS)
     gens = {n: kernel_gen(n) for n in KERNEL_TYPE}
     gens["ray_quad"] = quad_gen
-    kernelval.validate(ctx, m, KERNELS, 3000 if thorough else 120, gens=gens, label="C16 ray kernels")
+    kernelval.validate(ctx, m, KERNELS, 4000 if thorough else 500, gens=gens, label="C16 ray kernels")
     ctx.extra["kernel_body_sha256"] = {n: m.get("kernels", {}).get(n, {}).get("sha256", "")[:16] for n in KERNELS}
 
     drv = ctx.driver("drv_c16")
@@ -1075,11 +1078,13 @@ def run(ctx):
                                           "{-3,-1,0..7,100} x flg_static x bodyexclude {-1,0,1,2} x 7 masks = 44352 lines, + 2000 random")
     # ---- scenes
     if thorough:
-        run_scenes(ctx, impl, drv, 320, 6, 60, dev, found, stats)
+        for chunk in range(12):          # chunked: the per-ray outputs of one chunk are held in memory
+            run_scenes(ctx, impl, drv, 100, 6, 80, dev, found, stats)
     else:
         run_scenes(ctx, impl, drv, 40, 5, 40, dev, found, stats)
     # ---- directed primitive cases
-    run_geomray(ctx, impl, 250000 if thorough else 12000, dev, found, stats)
+    for chunk in range(4 if thorough else 1):
+        run_geomray(ctx, impl, 250000 if thorough else 12000, dev, found, stats)
     # findings of mj_multiRay's culling (reported to the coordinator, see final report) go last so that any other
     # failure is among the first entries of the replay file
     late = ("c16:multiray-short-vec", "c16:multiray-body-sphere-center", "c16:multiray-visual-geom-culled", "c16:multiray-cutoff-rbound")
